@@ -35,7 +35,8 @@ import (
 	"github.com/keep-network/keep-core/pkg/net/security/handshake"
 )
 
-var protos = []string{"keep", "keep2", "tbtc", "_", "Keep"}
+var protos = []string{"keep", "keep2", "tbtc", "_", "Keep", "keeq", "keep/1.0.0",
+	"keep-network-random-beacon-and-tbtc-wallets-protocol-identifier-of-seventy-chars"}
 
 func hstr(a, b uint64) string {
 	h := handshake.VerifHashToChallenge(a, b)
@@ -78,8 +79,52 @@ func (t *htab) add(a, b uint64) string {
 	return h
 }
 
+// systematic: every byte position of both challenges and of both nonces is altered once per run
+// (otherwise honest same-protocol handshakes), so a comparison that ignores any byte is caught.
+func genSystematic(r *hx.Rng) []string {
+	var ops []string
+	line := func(n1, n2 uint64, p, t1, t2, t3 string, tab *htab) {
+		tab.add(n1, n2)
+		tab.add(n2, n1)
+		ops = append(ops, fmt.Sprintf("hs %d %s %d %s %s %s %s %s", n1, p, n2, p, t1, t2, t3, hx.JoinStrs(tab.keys)))
+	}
+	for pos := 0; pos < 32; pos++ {
+		for act := 2; act <= 3; act++ {
+			n1, n2 := r.U64(), r.U64()
+			tab := &htab{seen: map[string]bool{}}
+			b, _ := hex.DecodeString(hstr(n1, n2))
+			b[pos] ^= byte(r.Range(1, 255))
+			c := "c=" + hex.EncodeToString(b)
+			if act == 2 {
+				line(n1, n2, hx.Pick(r, protos), "-", c, "-", tab)
+			} else {
+				line(n1, n2, hx.Pick(r, protos), "-", "-", c, tab)
+			}
+		}
+	}
+	for pos := 0; pos < 8; pos++ {
+		for act := 1; act <= 2; act++ {
+			n1, n2 := r.U64(), r.U64()
+			tab := &htab{seen: map[string]bool{}}
+			mask := uint64(r.Range(1, 255)) << (8 * uint(pos))
+			if act == 1 {
+				tab.add(n1^mask, n2)
+				line(n1, n2, hx.Pick(r, protos), fmt.Sprintf("n=%d", n1^mask), "-", "-", tab)
+			} else {
+				tab.add(n1, n2^mask)
+				line(n1, n2, hx.Pick(r, protos), "-", fmt.Sprintf("n=%d", n2^mask), "-", tab)
+			}
+		}
+	}
+	return ops
+}
+
 func gen(r *hx.Rng, n int, tier string) []string {
 	var ops []string
+	if n >= 200 {
+		ops = genSystematic(r)
+		n -= len(ops)
+	}
 	for i := 0; i < n; i++ {
 		n1, n2 := nonce(r), nonce(r)
 		if r.Chance(1, 15) {
@@ -406,6 +451,11 @@ func exec(op string) (string, string) {
 	}
 
 	// act 3
+	if t2.c != nil {
+		if t := diffTag("c2", t2.c, ra2.Message()); t != "" {
+			tags = append(tags, t)
+		}
+	}
 	ia3, err := ia2.Next(m2)
 	if err != nil {
 		obs = append(obs, "i="+errClass(err))
@@ -425,6 +475,9 @@ func exec(op string) (string, string) {
 	}
 	obs = append(obs, "a3="+hex.EncodeToString(pb3.Challenge))
 	if t3.c != nil {
+		if t := diffTag("c3", t3.c, ra2.Message()); t != "" {
+			tags = append(tags, t)
+		}
 		pb3.Challenge = t3.c
 	}
 	w3, _ = proto.Marshal(&pb3)
@@ -438,6 +491,33 @@ func exec(op string) (string, string) {
 	}
 	obs = append(obs, "f=ok")
 	return done("ok")
+}
+
+// diffTag classifies a tampered challenge that differs from the responder's real one in exactly
+// one byte: <pfx>-head (byte 0..7) or <pfx>-tail (byte 8..31).
+func diffTag(pfx string, tampered []byte, real *handshake.Act2Message) string {
+	w, err := real.Marshal()
+	if err != nil {
+		return ""
+	}
+	var m pb.Act2Message
+	if proto.Unmarshal(w, &m) != nil || len(m.Challenge) != len(tampered) {
+		return ""
+	}
+	n, at := 0, 0
+	for i := range tampered {
+		if tampered[i] != m.Challenge[i] {
+			n++
+			at = i
+		}
+	}
+	if n != 1 {
+		return ""
+	}
+	if at < 8 {
+		return pfx + "-head"
+	}
+	return pfx + "-tail"
 }
 
 func main() {
